@@ -17,7 +17,7 @@ from typing import (
 )
 
 from ._typing import T, T1, T2, T3, T4, T5, AnyIterable
-from ._core import aiter
+from ._core import aiter, ScopedIter
 from .contextlib import nullcontext
 
 
@@ -417,10 +417,11 @@ async def any_iter(
     """
     iterable = __iter if not isinstance(__iter, Awaitable) else await __iter
     if isinstance(iterable, AsyncIterable):
-        async for item in iterable:
-            yield (
-                item if not isinstance(item, Awaitable) else await item
-            )  # pyright: ignore[reportReturnType]
+        async with ScopedIter(iterable) as async_iter:
+            async for item in async_iter:
+                yield (
+                    item if not isinstance(item, Awaitable) else await item
+                )  # pyright: ignore[reportReturnType]
     else:
         for item in iterable:
             yield (
